@@ -119,6 +119,9 @@ def i6_corpus(seed, tier):
         else:
             g = gram.random_usable(rnd, nT=rnd.randint(1, 3), nN=rnd.randint(1, 3), p_prec=0.3)
         gs.append(('r%d' % i, genrun.fix_tags(g)))
+    for i in range(10 if tier == 'quick' else 60):
+        g = gram.random_usable(rnd, nT=rnd.randint(2, 4), nN=rnd.randint(1, 3), max_alts=4, p_term=0.7)
+        gs.append(('tw%d' % i, gram.twin_actions(genrun.fix_tags(g), rnd)))
     jobs = {}
     for gname, g in gs:
         nT = len(g['terms'])
@@ -150,6 +153,9 @@ def i6_corpus(seed, tier):
         for _ in range(2 if tier == 'quick' else 6):
             a, b = rnd.choice(pool), rnd.choice(pool)
             jl.append(('nest', '%s,%s,%d' % (a, b, rnd.randint(1, max(1, len(a) + 1)))))
+        for _ in range(3 if tier == 'quick' else 8):
+            a, b = rnd.choice(sents or pool), rnd.choice(sents or pool)
+            jl.append(('nestr', '%s,%s,%d' % (a, b, rnd.randint(1, max(1, len(a))))))
         jobs[gname] = list(dict.fromkeys(jl))
     return gs, jobs
 
@@ -233,7 +239,7 @@ def replay_oracle(out, variants=genrun.ALL_VARIANTS):
     for gi, gname in enumerate(order):
         g = gs[gname]
         d = out['dumps'].get(gname)
-        if not d or not d.get('ok'):
+        if not d or not d.get('ok') or g.get('plain_actions'):
             continue
         text = []
         chunks.append(text)
@@ -305,6 +311,21 @@ def run_C07(ctx):
         for r in g['rules']:
             lens.add(len(r['rhs']))
     ctx.extra['rule_lengths_covered'] = sorted(lens)
+    # grammars whose alternatives share their action text (no rule number inside): the value returned by every real
+    # parser against the value of the proved model (= bottom-up evaluation over the parse tree, theorem C07_values)
+    ntw = 0
+    for d in out['diffs']:
+        g = out['grammars'][d['grammar']]
+        if g.get('plain_actions') and 'value differs' in d['what']:
+            ctx.violation('counterexample', 'grammar %s variant %s input %r: %s (alternatives of one nonterminal share the action text but their symbols use different union fields)'
+                          % (d['grammar'], d['variant'], d.get('part', d['payload']), d['what']),
+                          case_of(out, d['grammar'], variant=d['variant'], input=d.get('part', d['payload']), observed=d['impl'], expected=d['model']), interface='I6')
+    for gname, vn, mode, payload, raw, ms in parsed_runs(out):
+        if out['grammars'][gname].get('plain_actions') and raw.startswith('A|'):
+            ntw += 1
+            ctx.evaluations += 1
+            ctx.nontrivial.add((gname, payload))
+    ctx.extra['shared_action_text_runs'] = ntw
     if not had_counterexample(ctx):
         vd = [d for d in i6_diffs(out) if 'value differs' in d['what']]
         report_corr(ctx, vd, {'I6'}, 'C07')
@@ -792,7 +813,7 @@ def run_C15(ctx):
                         ctx.nontrivial.add((gname, vn, payload))
                     if ctx.evaluations % 199 == 1:
                         ctx.sample(dict(grammar=gname, variant=vn, history=parts, results=got))
-                elif mode == 'nest':
+                elif mode in ('nest', 'nestr'):
                     a, b, k = payload.split(',')
                     ctx.evaluations += 1
                     f = raw.split(' ; ')
@@ -800,8 +821,8 @@ def run_C15(ctx):
                     if len(f) == 2 and f[1] != '-':
                         ctx.nontrivial.add((gname, vn, payload))
                         if (wa is not None and f[0] != wa) or (wb is not None and f[1] != wb):
-                            ctx.violation('counterexample', 'grammar %s variant %s: parse of %r on one context with a parse of %r on another context started at its token request #%s: got %s / %s, alone %s / %s'
-                                          % (gname, vn, a, b, k, f[0], f[1], wa, wb), case_of(out, gname, variant=vn, input=payload, mode='nest', observed=raw, expected='%s ; %s' % (wa, wb)), interface='I6')
+                            ctx.violation('counterexample', 'grammar %s variant %s: parse of %r on one context with a parse of %r on another context started at its %s #%s: got %s / %s, alone %s / %s'
+                                          % (gname, vn, a, b, 'token request' if mode == 'nest' else 'reduction (inside the action, before $n is read)', k, f[0], f[1], wa, wb), case_of(out, gname, variant=vn, input=payload, mode=mode, observed=raw, expected='%s ; %s' % (wa, wb)), interface='I6')
     if not had_counterexample(ctx):
         hd = [d for d in i6_diffs(out) if d['case'].get('mode') == 'hist']
         report_corr(ctx, hd, {'I6'}, 'C15')
